@@ -2,16 +2,14 @@
 //! key specifications that materialise against a configuration, and behavioural classes.
 use crate::engine::idx;
 use crate::support::hashers::{GenBH, HKind};
-use crate::support::rng::ScriptRng;
+use crate::support::rng::{take_last_clone, RngHandle, ScriptRng};
 use pdatastructs::filters::bloomfilter::BloomFilter;
 use pdatastructs::filters::cuckoofilter::CuckooFilter;
 use pdatastructs::filters::quotientfilter::QuotientFilter;
 use pdatastructs::filters::Filter;
 use proptest::prelude::*;
 use serde::{Deserialize, Serialize};
-use std::cell::Cell;
 use std::collections::HashSet;
-use std::rc::Rc;
 
 #[derive(Clone, Copy, Debug, PartialEq, Eq, Hash, Serialize, Deserialize)]
 pub enum FCfg {
@@ -162,7 +160,7 @@ pub fn filter_cfg() -> impl Strategy<Value = FCfg> {
 
 pub enum AnyFilter {
     Bloom(BloomFilter<u64, GenBH>),
-    Cuckoo(CuckooFilter<u64, ScriptRng, GenBH>, Rc<Cell<u64>>),
+    Cuckoo(CuckooFilter<u64, ScriptRng, GenBH>, RngHandle),
     Quotient(QuotientFilter<u64, GenBH>),
     Set(HashSet<u64>),
 }
@@ -239,14 +237,25 @@ impl AnyFilter {
     /// RNG words drawn so far (cuckoo only)
     pub fn drawn(&self) -> u64 {
         match self {
-            AnyFilter::Cuckoo(_, d) => d.get(),
+            AnyFilter::Cuckoo(_, d) => d.borrow().drawn,
             _ => 0,
+        }
+    }
+    /// make this filter's RNG continue exactly like `other`'s from now on
+    pub fn sync_rng_from(&self, other: &AnyFilter) {
+        if let (AnyFilter::Cuckoo(_, a), AnyFilter::Cuckoo(_, b)) = (self, other) {
+            let st = b.borrow().clone();
+            *a.borrow_mut() = st;
         }
     }
     pub fn deep_clone(&self) -> AnyFilter {
         match self {
             AnyFilter::Bloom(f) => AnyFilter::Bloom(f.clone()),
-            AnyFilter::Cuckoo(f, d) => AnyFilter::Cuckoo(f.clone(), Rc::new(Cell::new(d.get()))),
+            AnyFilter::Cuckoo(f, _) => {
+                let g = f.clone();
+                let h = take_last_clone().expect("cuckoo clone must clone its RNG");
+                AnyFilter::Cuckoo(g, h)
+            }
             AnyFilter::Quotient(f) => AnyFilter::Quotient(f.clone()),
             AnyFilter::Set(f) => AnyFilter::Set(f.clone()),
         }
